@@ -97,7 +97,10 @@ func (rl *ReconciledLoader) SetRemoteOnline(online bool) {
 		return
 	}
 	if rl.open && !wasOpen {
-		// if we're opening a remote request, we need to reverify against what we've loaded so far
+		// if we're opening a remote request, we need to reverify against what we've loaded so far.
+		// the new response is verified from the start of the traversal, so items still queued from
+		// a previous response (a request that was paused and is now resumed) are not part of it
+		rl.remoteQueue.clear()
 		rl.verifier = traversalrecord.NewVerifier(rl.traversalRecord)
 	}
 }
